@@ -88,6 +88,8 @@ type world struct {
 	ioEnd        *simnet.Conn
 	touched      map[int]bool
 	c2Seen       bool
+	xGater       *onlyRelayed
+	relNow       map[int]bool // who had only relayed connections to the relay when the current operation started
 	everRsv      map[int]bool
 }
 
@@ -125,11 +127,14 @@ func (w *world) mkNode(seed int, ip string, port int, ho *basichost.HostOpts, wr
 
 // onlyRelayed is X's connection gater: X learns the relay's TCP address through identify but must
 // never dial it directly (it stands for a peer that can reach the relay only through R2).
-type onlyRelayed struct{ target peer.ID }
+type onlyRelayed struct {
+	target      peer.ID
+	allowDirect bool // opened by X-ADD-DIRECT for the duration of one forced dial
+}
 
 func (g *onlyRelayed) InterceptPeerDial(peer.ID) bool { return true }
 func (g *onlyRelayed) InterceptAddrDial(p peer.ID, a ma.Multiaddr) bool {
-	if p != g.target {
+	if p != g.target || g.allowDirect {
 		return true
 	}
 	_, err := a.ValueForProtocol(ma.P_CIRCUIT)
@@ -262,7 +267,12 @@ func (w *world) setup() bool {
 			o.Trouble = "relay's own circuit transport: " + err.Error()
 			return false
 		}
-		X, err := w.mkNode(50, "9.9.9.9", 0, nil, false, &onlyRelayed{target: R.nd.ID})
+		xip := "9.9.9.9"
+		if c.mixed {
+			xip = c.pool[0] // its direct connection competes for the per-IP / per-ASN caps
+		}
+		w.xGater = &onlyRelayed{target: R.nd.ID}
+		X, err := w.mkNode(50, xip, 0, nil, false, w.xGater)
 		if err != nil {
 			o.Trouble = "X node: " + err.Error()
 			return false
@@ -318,7 +328,7 @@ func (w *world) ensure(cl *cli) bool {
 		w.logf("   %s could not connect to the relay: %v", w.cfg.name(cl.idx), err)
 		return false
 	}
-	if cl.relayed {
+	if cl.relayed && !w.cfg.mixed {
 		for _, cn := range R.nd.Swarm.ConnsToPeer(cl.nd.ID) {
 			if _, err := cn.RemoteMultiaddr().ValueForProtocol(ma.P_CIRCUIT); err != nil {
 				w.o.Trouble = "X has a direct connection to the relay"
@@ -329,15 +339,45 @@ func (w *world) ensure(cl *cli) bool {
 	return true
 }
 
-// ipsSeen lists the source IPs of cl's connections as the relay sees them.
+func isCircuit(a ma.Multiaddr) bool {
+	_, err := a.ValueForProtocol(ma.P_CIRCUIT)
+	return err == nil
+}
+
+// ipsSeen lists the source IPs of cl's connections as the relay sees them. Requests travel over a direct
+// connection when there is one (the swarm prefers it), so relayed connections only count when alone.
 func (w *world) ipsSeen(cl *cli) []string {
-	var out []string
+	var direct, all []string
 	for _, cn := range w.R.nd.Swarm.ConnsToPeer(cl.nd.ID) {
 		if ip, err := manet.ToIP(cn.RemoteMultiaddr()); err == nil {
-			out = union(out, []string{ip.String()})
+			all = union(all, []string{ip.String()})
+			if !isCircuit(cn.RemoteMultiaddr()) {
+				direct = union(direct, []string{ip.String()})
+			}
 		}
 	}
-	return out
+	if len(direct) > 0 {
+		return direct
+	}
+	return all
+}
+
+// relayedOnly: every connection the relay has to cl runs through another relay.
+func (w *world) relayedOnly(cl *cli) bool {
+	conns := w.R.nd.Swarm.ConnsToPeer(cl.nd.ID)
+	for _, cn := range conns {
+		if !isCircuit(cn.RemoteMultiaddr()) {
+			return false
+		}
+	}
+	return len(conns) > 0
+}
+
+func (w *world) noteRelayed() {
+	w.relNow = map[int]bool{}
+	for _, cl := range w.cl {
+		w.relNow[cl.idx] = w.relayedOnly(cl)
+	}
 }
 
 // takeDisc returns (and forgets) the clients the relay saw disconnect completely.
